@@ -2,6 +2,7 @@
 from __future__ import annotations
 
 import ast
+from pathlib import Path
 from typing import Callable, Dict, List, Optional
 
 from .src import AnalysisError, FuncInfo, Repo, norm
@@ -155,8 +156,53 @@ class Ctx:
                 raise AnalysisError(
                     f'{rule_id}: only {rep.counted()} instance(s) found, floor is {rep.floor} '
                     f'(a rule matching too few sites would pass vacuously)')
+            if rule_id in PROBES and not getattr(self, '_is_probe', False):
+                _run_probe(rule_id)
             self._reports[rule_id] = rep
         return self._reports[rule_id]
+
+
+# Rules whose expected number of findings on a healthy tree is zero keep a tiny positive example: on every run the rule is
+# also applied to this source (a scratch package under $TMPDIR, removed at once) and must report at least the stated number
+# of violations - otherwise the matcher has gone blind and the run fails closed.
+PROBES: Dict[str, tuple] = {
+    'R109': ('def f(a):\n    return a + undefined_name\n', 1),
+    'R111': ("def f(line):\n    return line.rstrip(r'\\r\\n')\n", 1),
+    'R116': ('def f(data):\n    kept = [d for d in data if d]\n    for i in range(len(kept)):\n        if kept[i] > 1:\n            break\n    return data[:i]\n', 1),
+    'R117': ('def f(xs, key):\n    return [x for _, x in sorted((key(x), x) for x in xs)]\n', 1),
+    'R118': ("import re\n_NL = re.compile(r'\\r\\n|\\r|\\n')\ndef f(s):\n    start = 0\n    for m in _NL.finditer(s):\n        end = m.start()\n        yield s[start:end]\n"
+             "        start = end + 1\n    yield s[start:]\n", 1),
+    'R120': ("def f(meta):\n    end = meta.find(' ')\n    return meta[:end], meta[end + 1:]\n", 2),
+    'R81': ('def f(a):\n    if a:\n        x = 1\n    return x\n', 1),
+    'R75': ('from collections import defaultdict\nclass T:\n    def __init__(self, rows):\n        d = defaultdict(list)\n        for k, v in rows:\n            d[k].append(v)\n'
+            '        self.table = d\n    def get(self, k):\n        return self.table[k]\n', 1),
+    'R13': ('def f(xs):\n    s = set(xs)\n    return [x for x in s]\n', 1),
+    'R86': ('from typing import Iterable\ndef f(lines: Iterable[str]):\n    n = len(list(lines))\n    return [l for l in lines], n\n', 1),
+    'R104': ('def f(rows):\n    out = []\n    for r in rows:\n        if r:\n            last = r\n        out.append(last)\n    return out\n', 1),
+    'R96': ('def f(a) -> str:\n    if a:\n        return "x"\n', 1),
+}
+
+
+def _run_probe(rule_id: str):
+    import shutil
+    import tempfile
+    src, want = PROBES[rule_id]
+    tmp = Path(tempfile.mkdtemp(prefix='pvprobe-'))
+    try:
+        (tmp / 'penman').mkdir()
+        (tmp / 'penman' / '__init__.py').write_text('')
+        (tmp / 'penman' / 'probe.py').write_text(src)
+        pctx = Ctx(Repo(str(tmp)), 'quick')
+        pctx._is_probe = True
+        try:
+            rep = RULES[rule_id](pctx)
+            got = len(rep.violations())
+        except AnalysisError as exc:
+            raise AnalysisError(f'{rule_id}: self-probe could not be analysed ({exc})')
+        if got < want:
+            raise AnalysisError(f'{rule_id}: self-probe: the rule reports {got} violation(s) on its positive example, {want} expected - the matcher has gone blind')
+    finally:
+        shutil.rmtree(tmp, ignore_errors=True)
 
 
 def need(cond: bool, msg: str):
